@@ -87,7 +87,7 @@ func (r *simReplayer) Put(m *sse.Message, topics []string) (out *sse.Message, er
 		r.panicSeq = w.tick()
 		w.o.fault("replayer Put panics")
 		w.sim.Log("fault", "Put panics")
-		panic("injected: replayer Put panic")
+		panic(w.panicValue("Put"))
 	}
 	if r.failPutAt > 0 && r.putN == r.failPutAt {
 		err = newInjected(fmt.Sprintf("put#%d", r.putN))
@@ -134,7 +134,7 @@ func (r *simReplayer) Replay(sub sse.Subscription) error {
 		r.panicSeq = w.tick()
 		w.o.fault("replayer Replay panics")
 		w.sim.Log("fault", "Replay panics")
-		panic("injected: replayer Replay panic")
+		panic(w.panicValue("Replay"))
 	}
 	if r.failReplayAt > 0 && r.replayN == r.failReplayAt {
 		rc.err = newInjected(fmt.Sprintf("replay#%d", r.replayN))
@@ -504,6 +504,27 @@ func max(a, b int) int {
 	return b
 }
 
+// panicValue draws what a panicking replayer panics with: a string, an error value, a runtime
+// error (what a nil-map write or an index out of range produce), or some other value.
+func (w *joeWorld) panicValue(where string) any {
+	switch w.ch.Weighted([]int{2, 2, 2, 1}, "panic value kind") {
+	case 1:
+		return newInjected("replayer " + where + " panic (error value)")
+	case 2:
+		defer func() { w.o.probe("replayer panicked with a runtime error") }()
+		var rt any
+		func() {
+			defer func() { rt = recover() }()
+			var m map[string]int
+			m[where] = 1
+		}()
+		return rt
+	case 3:
+		return struct{ what string }{"injected: replayer " + where + " panic"}
+	}
+	return "injected: replayer " + where + " panic"
+}
+
 // onSubCall runs inside every Send/Flush of subscriber s (on Joe's goroutine).
 func (w *joeWorld) onSubCall(s *joeSub) func(*simSub, bool, *sse.Message, error) {
 	return func(ss *simSub, flush bool, m *sse.Message, err error) {
@@ -519,6 +540,10 @@ func (w *joeWorld) onSubCall(s *joeSub) func(*simSub, bool, *sse.Message, error)
 		if s.returned != 0 {
 			s.afterRet++
 			w.o.violate("C06", "call-after-return", "sub%d: %s%s called after its Subscribe had returned (%v)", s.id, what, detail, s.retErr)
+			if !flush {
+				// a subscriber whose Subscribe has returned is no longer registered: nothing may be handed to it
+				w.o.violate("C03", "delivered-after-return", "sub%d was handed%s after its Subscribe had returned (%v): it is no longer a registered subscriber", s.id, detail, s.retErr)
+			}
 		}
 		if err != nil {
 			s.failSeq = w.tick()
@@ -740,7 +765,7 @@ func (w *joeWorld) chooseLastID(s *joeSub) {
 		s.idDesc = "unset"
 	default:
 		s.idClass = idNever
-		nevers := []string{"zzz", "id0", "999", "-1", "07"}
+		nevers := []string{"zzz", "id0", "999", "-1", "07", "9223372036854775808", "18446744073709551615", "99999999999999999999"}
 		v := nevers[w.ch.Intn(len(nevers), "never-issued id")]
 		for _, e := range L {
 			if e.id == v {
